@@ -78,7 +78,7 @@ class Sub:
     rng = np.random.default_rng(abs(hash((name, seed))) % (2 ** 31))
     return (rng.standard_normal(shape) * 0.7).astype(np.float32)
 
-  def fc(self, x, out_name, units=2, bias=True, w=None, w_idx=None):
+  def fc(self, x, out_name, units=2, bias=True, w=None, w_idx=None, fused=0):
     nin = self.shapes[x][-1]
     if w_idx is None:
       w_idx = self.const(out_name + '_w',
@@ -89,6 +89,7 @@ class Sub:
       b_idx = self.const(out_name + '_b', self._w(out_name, (units,), 2))
     y = self.act(out_name, self.shapes[x][:-1] + (units,))
     o = S.FullyConnectedOptionsT()
+    o.fusedActivationFunction = fused
     o.keepNumDims = len(self.shapes[x]) > 2
     self._op(BO.FULLY_CONNECTED, [x, w_idx, b_idx], [y],
              S.BuiltinOptions.FullyConnectedOptions, o)
@@ -152,13 +153,15 @@ class Sub:
     self._op(BO.EMBEDDING_LOOKUP, [ids, table], [y])
     return y
 
-  def binary(self, kind, a, b, out_name):
+  def binary(self, kind, a, b, out_name, fused=0):
     code = {'ADD': BO.ADD, 'SUB': BO.SUB, 'MUL': BO.MUL}[kind]
     ot = {'ADD': (S.BuiltinOptions.AddOptions, S.AddOptionsT),
           'SUB': (S.BuiltinOptions.SubOptions, S.SubOptionsT),
           'MUL': (S.BuiltinOptions.MulOptions, S.MulOptionsT)}[kind]
     y = self.act(out_name, np.broadcast_shapes(self.shapes[a], self.shapes[b]))
-    self._op(code, [a, b], [y], ot[0], ot[1]())
+    opt = ot[1]()
+    opt.fusedActivationFunction = fused
+    self._op(code, [a, b], [y], ot[0], opt)
     return y
 
   def unary(self, kind, x, out_name):
@@ -213,9 +216,10 @@ class Sub:
              S.BuiltinOptions.StridedSliceOptions, S.StridedSliceOptionsT())
     return y
 
-  def avgpool(self, x, out_name):
+  def avgpool(self, x, out_name, fused=0):
     y = self.act(out_name, self.shapes[x])
     o = S.Pool2DOptionsT()
+    o.fusedActivationFunction = fused
     o.strideH = o.strideW = 1
     o.filterHeight = o.filterWidth = 1
     self._op(BO.AVERAGE_POOL_2D, [x], [y], S.BuiltinOptions.Pool2DOptions, o)
